@@ -292,4 +292,7 @@ var plainHeaders = []string{
 	"//go:build linux || darwin\n// +build linux darwin\n\n",
 	"/*\n * Block comment licence.\n */\n\n",
 	"// Package docs live elsewhere.\n\n//go:build !ignore\n\n",
+	// positions of everything below are attributed to another file name and line
+	"//line sample.y:1\n",
+	"//line /gen/src/other.go:100\n\n",
 }
